@@ -243,3 +243,5 @@ CHECKS["C16"]["text"] += (" (e) import statements: 47 path spellings (existing /
 CHECKS["C17"]["text"] += (" The report is located by markers learnt from the binary; the trace is the sequence of frame lines (a label `<file>.mmm#<function>` / `<native code>#<built-in>` plus"
                           " decoration), the assert position may stand anywhere in the report, the wording of messages is recorded, not judged.")
 CHECKS["C20"]["text"] += (" `clean` must succeed on every explored tree (none contains anything it cannot handle); the reported count is any integer on a stdout line that names no path.")
+CHECKS["C09"]["note"] = (CHECKS["C09"].get("note", "") + " The abstract machine has one transfer function per opcode (63, transcribed from bytecode/src/instruction.rs; opcode numbers are read from"
+                         " /repo at run time). A tree that adds an opcode makes the check stop with exit status 2 (machinery: opcode without abstract semantics), never with a verdict.").strip()
